@@ -179,6 +179,55 @@ theorem same_object_at_every_time (who : Nat → Caller) (cr : Nat → Bool) (sc
   cases pk
   exact ⟨rfl, pj, pj'⟩
 
+/-- whatever a client sees through ANY public route is the entry of the address at that moment -/
+theorem sees_the_entry (who : Nat → Caller) (cr : Nat → Bool) (sched : List Nat) (a d : Nat) (ρ : Route)
+    (h : sees who (run true who cr init sched) a ρ d = true) : (run true who cr init sched).published a = some d := by
+  have inv := per_address_single_device who cr sched
+  cases ρ with
+  | data => simpa [sees] using h
+  | getNowait => simpa [sees] using h
+  | attr => simpa [sees] using h
+  | subscribed =>
+    have hm : (a, d) ∈ (run true who cr init sched).dispatched := by simpa [sees] using h
+    exact inv.2.2.1 (a, d) hm
+  | returned j =>
+    simp only [sees, Bool.and_eq_true, beq_iff_eq, Bool.or_eq_true] at h
+    obtain ⟨ha, hp⟩ := h
+    rw [← ha]
+    exact inv.2.2.2.2.1 j d hp
+
+/-- **same_object_over_all_routes** — "every caller receives the same object at every time", over EVERY public way to
+obtain the device: `protocol.data[name]`, `get_nowait`, attribute access, a subscribed callback, the return value of
+`get()` / `wait_for()` + read, and the object a frame consumer hands its frame to.  Whatever is seen for address `a`
+through route `ρ` at one moment and through route `σ` at the same or any later moment (`more` further steps of any
+schedule) is one and the same object: the entry of `a` at both moments. -/
+theorem same_object_over_all_routes (who : Nat → Caller) (cr : Nat → Bool) (sched more : List Nat) (a d e : Nat) (ρ σ : Route)
+    (h1 : sees who (run true who cr init sched) a ρ d = true)
+    (h2 : sees who (run true who cr init (sched ++ more)) a σ e = true) :
+    d = e ∧ (run true who cr init sched).published a = some d ∧
+      (run true who cr init (sched ++ more)).published a = some d := by
+  have p1 := sees_the_entry who cr sched a d ρ h1
+  have p2 := sees_the_entry who cr (sched ++ more) a e σ h2
+  have p1' := entry_is_stable who cr sched more a d p1
+  rw [p1'] at p2
+  cases p2
+  exact ⟨rfl, p1, p1'⟩
+
+/-- non-vacuity: two frames and a get() for one address; after the first consumer published object 0 a subscribed
+callback, `protocol.data`, and — three steps later — the second consumer and the get() caller all see object 0 -/
+example :
+    let who : Nat → Caller := fun j => if j = 2 then ⟨.get, 69⟩ else ⟨.entry, 69⟩
+    sees who (run true who (fun _ => true) init [0, 1, 0, 0]) 69 .subscribed 0 = true ∧
+    sees who (run true who (fun _ => true) init [0, 1, 0, 0]) 69 .data 0 = true ∧
+    sees who (run true who (fun _ => true) init ([0, 1, 0, 0] ++ [1, 2, 2])) 69 (.returned 1) 0 = true ∧
+    sees who (run true who (fun _ => true) init ([0, 1, 0, 0] ++ [1, 2, 2])) 69 (.returned 2) 0 = true := by decide
+
+/-- … and the unlocked machine shows two different objects through two routes (the model tells the difference) -/
+example :
+    let who : Nat → Caller := fun _ => ⟨.entry, 69⟩
+    sees who (run false who (fun _ => true) init [0, 1, 0, 1, 0, 1]) 69 (.returned 0) 0 = true ∧
+    sees who (run false who (fun _ => true) init [0, 1, 0, 1, 0, 1]) 69 .data 1 = true := by decide
+
 /-- "that object receives every frame": in every reachable state every frame consumer can
 still finish within five moves (at most two to run a foreign holder out of the lock, then
 acquire, class loading, publish) — and then its frame has been handled by the entry of its
